@@ -516,6 +516,10 @@ func Re(errBuf *strings.Builder, validName, objName, fieldName string, tv reflec
 	}
 
 	l := len(validName)
+	if splitIndex+1 >= l { // "'" 后没有内容
+		errBuf.WriteString(GetJoinFieldErr(objName, fieldName, reErr))
+		return
+	}
 	b := make([]byte, 0, l)
 	i := splitIndex + 1
 	for ; i < l; i++ {
